@@ -45,10 +45,20 @@ CHECKS = {
          "Seeded search over refinement histories with 1-3 stops through the documented limit mechanism, with recalculate_frequently forced to small periods in a share of runs (fast path skipped). At every stop: reported == sum of coefficient x component result recomputed independently (own composite trapezoid on the reported point lists for dimension-wise; a fresh grid instance and an un-cached integrand per leaf and component for extend-split, standard and dimension-adaptive), == evaluate_final_combi() twice (on a deep copy), == the same history with reevaluate_at_end=True, and sum w f over get_points_and_weights() for standard and dimension-wise. Three genuine defects found here were repaired (see known_findings.txt).",
          "Trusted: harness recomputation, magnitude-based rounding bound. Stubs: integrand values, error-estimator answers, dimension-adaptive surplus answers, clock.",
          "DESIGN.md section 5, C05"),
+ "C13": ("dimwise_sim+extendsplit_sim", "exploration",
+         "deterministic simulation: the real driver loop with the real error estimators on all three strategies under a hash-valued integrand; limits scheduled so that every stop rule bites, including limits placed exactly on values the run itself produces (learnt from an exploratory twin)",
+         "Seeded search over (strategy, norm, reference vector, tol, min/max point limits). Observers count evaluate/refine calls and record result and the stub's own distinct-point count at every evaluation. Oracle: the run stops at the first index where (E<=tol and N>=min) or N>max, no refine after it, array lengths, monotone counts, non-negative errors/benefits, reported error equals the documented norm of the deviation at every evaluation, point counts equal the stub's distinct evaluations. 40% of runs put tol/min/max exactly onto E[k]/N[k] of the run to decide <= vs <.",
+         "Trusted: harness oracle; the library's documented norm convention is taken as the definition. Stubs: integrand values, clock.",
+         "DESIGN.md section 5, C13"),
+ "C14": ("dimwise_sim+extendsplit_sim", "fault_enumeration",
+         "deterministic simulation with fault injection: every crash point of each explored run is enumerated (stop by limits after evaluation k), with save / crash / restore (in-process and, thorough tier, in a fresh interpreter from the bytes only) and write faults (torn, short, ENOSPC, lost) on a simulated file system; oracle is the uninterrupted twin",
+         "For each seeded configuration the uninterrupted twin run defines evaluation indices 0..m; every k<m (sub-sampled above 10/16 and counted) is used as crash point with a fault kind drawn per (configuration,k). Final structure, scheme, lmax, point count (exact) and result (rounding bound) must equal the twin's; a restored instance must give bitwise the same interpolation, result and point count as the saved one; failed saves must raise and leave the live instance able to reach the twin's end state; incomplete files must be refused on restore.",
+         "Trusted: SimFS semantics, dill itself. Not injected: bit flips inside a successfully written pickle (no integrity promise in the property). Stubs: file system, integrand values, keyed estimator answers without evaluation counter (real estimators in a third of the runs), clock.",
+         "DESIGN.md section 5, C14"),
 }
 
 _P = "claimed by DESIGN.md but the check is not built yet in this tree; listed here until its engine is registered"
-PENDING = {k: _P for k in [ "C12", "C13", "C14", "C15", "C17", "C18", "C19"]}
+PENDING = {k: _P for k in ["C12", "C15", "C17", "C18", "C19"]}
 
 def main():
     checks = []
